@@ -89,11 +89,13 @@ def classCaughtBy (names : List String) (cls : String) : Bool :=
     (n == "ArithmeticError" && cls == "OverflowError") || (n == "LookupError" && (cls == "IndexError" || cls == "KeyError")))
 
 /-- `_try_parser`: `_order = DATE_ORDER; DATE_ORDER := locale order (maybe); parse; DATE_ORDER := _order` on the normal path and in the
-    handler of the `except` tuple read from the source; an exception outside the tuple leaves the temporary value behind -/
+    handler of the `except` tuple read from the source (`Gen.tryParserRestoresOnReturn`, `Gen.tryParserRestoresOnCatch` record whether the
+    source does put it back there); an exception outside the tuple leaves the temporary value behind -/
 def tryParserOrderAfter (before localeOrder : Nat) (writes : Bool) (o : ParseOutcome) : Nat :=
   let during := if writes then localeOrder else before
   match o with
-  | .ok => before
-  | .raised cls => if (Gen.exceptTryParser.headD []).any (fun n => classCaughtBy [n] cls) then before else during
+  | .ok => if Gen.tryParserRestoresOnReturn then before else during
+  | .raised cls =>
+    if (Gen.exceptTryParser.headD []).any (fun n => classCaughtBy [n] cls) && Gen.tryParserRestoresOnCatch then before else during
 
 end DP.Shared
